@@ -16,7 +16,9 @@ CLAIMED = {
          "generation emits - decode (skipping undecodable rows), merge, rewrite - admits every observed value; with emitted_is_traced / "
          "generator_annotation / plain_annotation for what the strategy flags put at the position. It chains C04 (getType / shrink "
          "soundness, tight reading of Any from C05), C07 (rewriters never narrow), C08 (round trip) and C13. The last step - the rendered "
-         "text, evaluated with the stub's own names, is that type - is evaluated on every generated stub, not proved. The check runs "
+         "text, evaluated with the stub's own names and generated classes, is that type - is a theorem too (pipeline_text_sound_td, for "
+         "every size limit, through C11.rendered_denotes), and the stub-time size limit of C06 is the identity on a history recorded under "
+         "the same limit and loses no value under any other (stub_time_limit_is_identity, position_admits_any_limit). The check runs "
          "generated programs under monkeytype.trace into a real SQLiteStore, runs `stub` through cli.main for k x rewriter x flags, "
          "evaluates the stub text with only the names it provides and tests every value the program reported against its position's "
          "annotation with the reference conformance oracle. For TypedDict-free emitted types - which is every emitted type at the default "
@@ -24,9 +26,10 @@ CLAIMED = {
          "module-stripped annotation evaluated in a namespace where its names denote what was rendered admits every observed value "
          "(pipeline_text_sound, default_pipeline_text_sound, through C11.rendered_denotes_partial)."),
    ref="DESIGN.md section 4 C01",
-   note=("partial: for types with generated TypedDict classes (k > 0) rendering/evaluation of the text is observed (C11 RenderedDenotes); hypotheses of pipeline_sound: values "
-         "well-formed, types storable (classes importable under their own names); histories below the query limit. One open finding "
-         "shared with C11 (generated class-name collision)"),
+   note=("hypotheses of pipeline_sound: values well-formed, types storable (classes importable under their own names); histories below "
+         "the query limit; for the text step the decidable side conditions of C11.rendered_denotes (ClassesIn, namesOkT). That annotation "
+         "text parses to the expression the model prints is CPython's (observed). Two open findings shared with C11 "
+         "(KF-C01-td-class-name-collision, KF-C01-same-name-two-modules)"),
    technique="Lean 4 proof (composition of the C04/C05/C07/C08/C13 theorems) + end-to-end differential runs of the real tracer, store and CLI against a ground-truth recorder"),
  "C04": dict(
    text=("Lean 4 theorems over a hand-written model of get_type/shrink_types/Union/TypedDict merge: for every list of "
@@ -44,8 +47,11 @@ CLAIMED = {
  "C06": dict(
    text=("Lean 4 theorems: every TypedDict node inside get_type(v,k), inside any merge of inferred types and inside infer k vs has between 1 "
          "and k keys (MT.C06.getType_bound/shrink_bound/infer_bound), so none exists at k=0 (limit_zero_no_typed_dict); a value becomes a "
-         "TypedDict iff it is a non-empty exact dict with all-string keys and at most k of them (typed_dict_iff); the mixed-shape rewrite "
-         "leaves no TypedDict. Tied to /repo by differential testing of get_type/shrink_types against the model and of the Lean size "
+         "TypedDict iff it is a non-empty exact dict of at most k keys that are all identifier strings (typed_dict_iff, "
+         "typed_dict_keys_are_strings); the mixed-shape rewrite leaves no TypedDict; at stub time, whatever limits the stored traces were "
+         "recorded under, the merge of the size-limited stored types has only TypedDicts of 1..k keys at every depth, none at 0 "
+         "(stub_limit_enforced, stub_limit_zero_no_typed_dict, over Model/Enforce.lean = RewriteOversizeTypedDictToDict), and that rewrite "
+         "is the identity at the traces' own limit and never narrows. Tied to /repo by differential testing of get_type/shrink_types against the model and of the Lean size "
          "predicate against an independent Python walk; the store round trip and the rendered TypedDict class stubs are checked on the "
          "real code for every generated case."),
    ref="DESIGN.md section 4 C06",
@@ -128,11 +134,13 @@ CLAIMED = {
          "the events of any other frame however they are nested or interleaved (frame_locality); a frame that is called, suspends any number of "
          "times and finishes is logged exactly once with the argument types of its call, the union of exactly its yielded types (none for a "
          "coroutine's awaits), its return type iff it returned, leaving no per-call state (lifecycle_logged_once, interleaved_frame_logged_once); "
+         "the log's frames are a subsequence, in order, of the frames of the finishing events (log_in_completion_order); "
          "rejected code is ignored. Tied to /repo by recording, from outside, the event stream the real tracer saw on generated programs and "
          "replaying it through the model; the real log is also compared with the ground truth every generated function records about itself."),
    ref="DESIGN.md section 4 C02",
    note=("partial: the mapping from a Python program to its profile events and opcodes is CPython's (observed, monitored for well-formedness); "
-         "the function a code object resolves to is read from the tracer's cache and attribution is checked directly; async generators excluded"),
+         "the function a code object resolves to is read from the tracer's cache and attribution is checked directly; for an asynchronous "
+         "generator the model's coroutine flag stands for 'this suspension is an await' (CPython hands a yielded value over wrapped)"),
    technique="Lean 4 proof (locality + lifecycle by induction over event histories) + differential correspondence by event-stream replay"),
  "C18": dict(
    text=("Lean 4 theorems over the same state machine with a draw stream: a zero draw stream (rate 1) behaves step for step as the unsampled "
@@ -185,32 +193,41 @@ CLAIMED = {
    text=("Lean 4 theorem over a token-level model of render_parameter/render_signature and of Python's parameter-list grammar: for every "
          "parameter list whose kinds are in the order Python allows, reading the rendered list back gives exactly the real parameters — "
          "names, kinds, order, presence of defaults — and the tokens do not depend on the line width (params_roundtrip, "
-         "params_roundtrip_any_width, layout_independent). Tied to /repo by lexing the real render_signature output (3 widths) against "
+         "params_roundtrip_any_width, layout_independent); and over a model of build_module_stubs (a tree of dicts with Python's "
+         "dict semantics): for every list of entries, of any class paths and in any order, every function sits exactly once at its class "
+         "path and nothing else is there (each_function_once, later_entry_wins). Tied to /repo by lexing the real render_signature output (3 widths) against "
          "the model's tokens for all valid kind sequences up to 4 parameters and random longer ones; the whole stub of generated modules "
          "(every function kind, classes one and two levels deep, coroutines, generators, random traced subsets) is parsed with ast and "
          "compared with inspect.signature: each traced function exactly once inside its class path, decorator by kind, async, receiver "
-         "unannotated, nothing untraced."),
+         "unannotated, nothing untraced; two modules with same-named classes are built in one call; the model tree is compared with "
+         "the real nesting of ModuleStub / ClassStub (corr.C12.moduleTree)."),
    ref="DESIGN.md section 4 C12",
    note=("partial: 'the stub parses as Python' and the placement/decorator clauses are observed with CPython's parser on generated modules; "
          "Lean proves the parameter-list round trip on tokens (text lexing is the harness's)"),
    technique="Lean 4 proof (induction over the parameter list with the renderer's and parser's state machines) + differential correspondence + ast/inspect oracle"),
  "C11": dict(
-   text=("Lean 4 theorem MT.C11.rendered_denotes_partial over a model of RenderAnnotation (expression tree + text), the module-prefix "
+   text=("Lean 4 theorems MT.C11.rendered_denotes (generated TypedDict classes included: Model/TDStub.lean models "
+         "ReplaceTypedDictsWithStubs - hint threading, class stubs in emission order, per-field strip lists, class text and stub order - "
+         "and evaluation with a class environment: forward references, total=False inheritance, shadowing, fuel = nesting depth; for every "
+         "well-formed type, hint, name table, strip lists, namespace and class environment in which every generated class is what its name "
+         "denotes (ClassesIn) and every other name denotes what was rendered (namesOkT), the annotation evaluates to a type with exactly the "
+         "members of the rendered type) and MT.C11.rendered_denotes_partial over a model of RenderAnnotation (expression tree + text), the module-prefix "
          "stripping of FunctionStub.render (stripParts: longest module first, only whole leading name parts) and an evaluator of annotation "
          "expressions in the namespace a stub provides (Model/EvalAnno.lean: imports executed in order over the target module's classes and "
          "builtins; Optional/Union/Tuple[()]/Tuple[X, ...] as typing reads them): for every TypedDict-free type, every class-name table and "
          "every namespace in which each name the annotation uses denotes what was rendered (decidable hypothesis namesOk), evaluating the "
          "rendered, stripped annotation gives a type with exactly the members of the rendered type (both readings of Any). Also: shape "
          "lemmas, no class stub for a TypedDict-free type (no_td_no_classes), every name a field of a generated TypedDict class needs is "
-         "imported (td_fields_imported), Union admits exactly what an argument admits (union_members). The full statement incl. generated "
-         "classes (RenderedDenotes) is evaluated on every generated stub: the import block is really executed in an empty namespace, the "
+         "imported (td_fields_imported), Union admits exactly what an argument admits (union_members), classesIn_of_functional, "
+         "classesT_names, renderT_noTD. The statement is also evaluated on every generated stub: the import block is really executed in an empty namespace, the "
          "class stubs registered, every annotation evaluated and compared with the rendered type. Tied to /repo by comparing annotation "
-         "text, stripped stub text, import sets (per annotation and of a whole ModuleStub), generated class names and the evaluation "
-         "result of every TypedDict-free annotation (model evaluator vs Python's eval of the real stub)."),
+         "text, stripped stub text, import sets (per annotation and of a whole ModuleStub), generated class names, class texts in stub "
+         "order, the text of every annotation component and the evaluation result of every annotation, TypedDict classes included "
+         "(model evaluator vs Python's eval of the real stub)."),
    ref="DESIGN.md section 4 C11",
-   note=("partial: the denotation theorem covers the TypedDict-free fragment under the hypothesis namesOk; its negation is the recorded finding "
-         "KF-C11-same-name-two-modules (witness proved in Props/C11.lean); types with generated classes are checked directly; "
-         "open findings: KF-C11-td-class-name-collision, KF-C11-same-name-two-modules"),
+   note=("the theorems' decidable hypotheses (ClassesIn, namesOkT / namesOk) are exactly what the two open findings violate "
+         "(KF-C11-td-class-name-collision, KF-C11-same-name-two-modules; both witnessed in Props/C11.lean); that annotation text parses to "
+         "the expression tree the model prints is CPython's (observed); isIdent / base-class resolution simplifications are listed in DESIGN section 7"),
    technique="Lean 4 proof (mutual structural induction over types: evaluator o strip o render preserves members) + executable correspondence (text, imports, class names, evaluation) + direct evaluation of generated stubs"),
  "C14": dict(
    text=("Lean 4 theorems with set/dict iteration order, hash seeds, memory layout, row order and repetition modelled as two lists with the "
